@@ -45,6 +45,7 @@ const (
 	OBOr
 	OIte // a[0] bool; a[1],a[2] bv or bool
 	OUF  // uninterpreted function name(args) -> bv w
+	OFP  // interpreted IEEE-754 function name(args) over bit patterns (fp.go)
 )
 
 var opNames = map[Op]string{
@@ -1091,6 +1092,16 @@ func (e *evaluator) eval(t *Term) uint64 {
 	case OUF:
 		e.missingUF = true
 		v = 0
+	case OFP:
+		av := make([]uint64, len(t.a))
+		for i, a := range t.a {
+			av[i] = e.eval(a)
+		}
+		fv, ok := fpEval(t.name, av)
+		if !ok {
+			e.missingUF = true
+		}
+		v = fv
 	case ONot:
 		v = ^e.eval(t.a[0]) & mask(t.w)
 	case ONeg:
@@ -1190,6 +1201,8 @@ func smtDef(t *Term) string {
 		return fmt.Sprintf("((_ zero_extend %d) %s)", t.w-t.a[0].w, smtRef(t.a[0]))
 	case OSExt:
 		return fmt.Sprintf("((_ sign_extend %d) %s)", t.w-t.a[0].w, smtRef(t.a[0]))
+	case OFP:
+		return fpSmt(t)
 	case OUF:
 		if len(t.a) == 0 {
 			return t.name
@@ -1239,6 +1252,8 @@ func termStr(t *Term, depth int) string {
 		return fmt.Sprintf("sx%d(%s)", t.w, termStr(t.a[0], depth+1))
 	case OUF:
 		sb.WriteString(t.name)
+	case OFP:
+		sb.WriteString("fp." + t.name)
 	default:
 		sb.WriteString(opNames[t.op])
 	}
@@ -1283,6 +1298,8 @@ func (c *Ctx) rebuild(t *Term, a []*Term) *Term {
 		return c.Ite(a[0], a[1], a[2])
 	case OUF:
 		return c.UF(t.name, t.w, a...)
+	case OFP:
+		return c.FP(t.name, t.w, a...)
 	}
 	return c.Bin(t.op, a[0], a[1])
 }
